@@ -23,7 +23,7 @@ FIX_RENAMED = ("        changed = None\n        code = self.language_code\n     
        "        self.language_code = code\n        self.territory_code = terr\n        return changed\n")
 
 TE.TIES['ling'] = {
-  'translators': ['ling'], 'module': 'I18n.Props.C19Tie', 'tests': ['tests/test_ling.py'],
+  'translators': ['linglang'], 'module': 'I18n.Props.C19Tie', 'tests': ['tests/test_ling.py'],
   'edits': {
    'fix-territory-unchecked-when-fixed': ed(LG, ("        if cc is not None:\n            cc = lookup_territory_code(cc)", "        if cc is not None and fixed is None:\n            cc = lookup_territory_code(cc)")),
    'fix-fixed-always': ed(LG, ("        elif ll != self.language_code:\n            fixed = True", "        else:\n            fixed = True")),
